@@ -55,7 +55,25 @@ class CModel:
         self.functions = {}  # name -> {"ret": CType, "params": [(name, CType)], "file": str, "line": int}
         self.header_text = {}
 
-    # layout according to the explicit members CBMC reports (padding included)
+    # Layout by the natural-alignment rules of the x86-64 SysV C ABI over the *declared* members.  CBMC's symbol table also
+    # lists explicit `$pad` members; they agree with these rules except that a union padded with a 128-bit integer makes
+    # CBMC align the enclosing record to 16 (e.g. {union {void* ok; struct {int; int; short;} err;}; bool is_ok;} comes out
+    # as 32 bytes where every C compiler gives 24), so the pads are not used for sizes.
+    def alignof(self, t):
+        if t.kind in ("int", "float"):
+            return max(1, t.width // 8)
+        if t.kind == "bool":
+            return 1
+        if t.kind in ("ptr", "fn"):
+            return 8
+        if t.kind == "enum":
+            return self.alignof(self.enums[t.tag]["underlying"])
+        if t.kind in ("struct", "union"):
+            return max([self.alignof(m[1]) for m in self.structs[t.tag]["members"] if not m[2]] or [1])
+        if t.kind == "array":
+            return self.alignof(t.to)
+        return 1
+
     def sizeof(self, t):
         if t.kind in ("int", "float"):
             return t.width // 8
@@ -65,10 +83,17 @@ class CModel:
             return 8
         if t.kind == "enum":
             return self.sizeof(self.enums[t.tag]["underlying"])
-        if t.kind == "struct":
-            return sum(self._member_bytes(m) for m in self.structs[t.tag]["members"])
-        if t.kind == "union":
-            return max([self._member_bytes(m) for m in self.structs[t.tag]["members"]] or [0])
+        if t.kind in ("struct", "union"):
+            members = [m for m in self.structs[t.tag]["members"] if not m[2]]
+            a = self.alignof(t)
+            if t.kind == "union":
+                raw = max([self.sizeof(m[1]) for m in members] or [0])
+            else:
+                raw = 0
+                for _, mt, _ in members:
+                    ma = self.alignof(mt)
+                    raw = (raw + ma - 1) // ma * ma + self.sizeof(mt)
+            return (raw + a - 1) // a * a
         if t.kind == "array":
             return self.sizeof(t.to) * t.size
         raise ValueError("sizeof %r" % t)
@@ -86,10 +111,15 @@ class CModel:
         s = self.structs[tag]
         for m in s["members"]:
             name, t, pad = m
-            if not pad:
-                out.append((name, 0 if s["kind"] == "union" else off, t))
-            if s["kind"] != "union":
-                off += self._member_bytes(m)
+            if pad:
+                continue
+            if s["kind"] == "union":
+                out.append((name, 0, t))
+                continue
+            ma = self.alignof(t)
+            off = (off + ma - 1) // ma * ma
+            out.append((name, off, t))
+            off += self.sizeof(t)
         return out
 
 
